@@ -518,7 +518,7 @@ theorem slice_at_lt' {n : Nat} (hn : (n : Int) ≤ PY_SSIZE_T_MAX) {idx : PyIdx}
     in Python: empty array, or start below `-len`). -/
 theorem extract_slice_error {n : Nat} (hn : (n : Int) ≤ PY_SSIZE_T_MAX) {a b c : Option Int}
     (hc : ∀ v, c = some v → -PY_SSIZE_T_MAX ≤ v) {e : Err}
-    (h : extractSliceIndices n (.slice a b c) = .error e) :
+    (h : extractSliceIndices n (.slice a b c) (-1) 0 = .error e) :
     (c = some 0 ∧ e = .stepZero) ∨
     (e = .domainError ∧ c.getD 1 < 0 ∧ PyList.boundDown n a ((n : Int) - 1) = -1) := by
   unfold extractSliceIndices at h
@@ -575,8 +575,8 @@ theorem extract_slice_error {n : Nat} (hn : (n : Int) ≤ PY_SSIZE_T_MAX) {a b c
 
 /-- forward slices never raise; a backward slice raises exactly in the case above -/
 theorem extract_slice_forward_ok {n : Nat} (hn : (n : Int) ≤ PY_SSIZE_T_MAX) {a b : Option Int} {c : Option Int}
-    (hpos : 0 < c.getD 1) : ∃ s, extractSliceIndices n (.slice a b c) = .ok s := by
-  cases h : extractSliceIndices n (.slice a b c) with
+    (hpos : 0 < c.getD 1) : ∃ s, extractSliceIndices n (.slice a b c) (-1) 0 = .ok s := by
+  cases h : extractSliceIndices n (.slice a b c) (-1) 0 with
   | ok s => exact ⟨s, rfl⟩
   | error e =>
     have hc : ∀ v, c = some v → -PY_SSIZE_T_MAX ≤ v := by
@@ -633,5 +633,41 @@ theorem extract_slice_total_repaired {n : Nat} (hn : (n : Int) ≤ PY_SSIZE_T_MA
       · simp only [hSE, if_false]
         have : ¬ ((S : Int) < -1 ∨ (E : Int) < -1 ∨ (0 : Int) < 0) := by omega
         rw [if_neg this]; exact ⟨_, rfl⟩
+
+end ImathVerif.FixedArray
+
+namespace ImathVerif.FixedArray
+open ImathVerif
+
+/-- The start test of the CURRENT code, `(sl > 0 && s < 0)`, and the model's `s < -1` are both false on every
+    output of `PySlice_Unpack` + `PySlice_AdjustIndices`: the adjusted start is at least -1, and at least 0 as
+    soon as the slice selects an item.  (So the two tests are interchangeable, and `start = (sl > 0) ? s : 0`
+    differs from the model's `s.toNat` only where `start` is unused.) -/
+theorem current_start_test_equiv {n : Nat} (hn : (n : Int) ≤ PY_SSIZE_T_MAX) {a b c : Option Int}
+    (hc : ∀ v, c = some v → -PY_SSIZE_T_MAX ≤ v) {sa so st : Int} (hu : sliceUnpack a b c = .ok (sa, so, st)) :
+    ¬ ((sliceAdjust n sa so st).1 < -1) ∧
+    ¬ (0 < (sliceAdjust n sa so st).2.2 ∧ (sliceAdjust n sa so st).1 < 0) := by
+  obtain ⟨h1, h2, h3, h4⟩ := sliceUnpack_ok hc hu
+  unfold sliceAdjust
+  by_cases hneg : st < 0
+  · simp only [hneg, if_true] at h3 h4 ⊢
+    subst h3 h4
+    rw [adjust_down_start hn hneg a, adjust_down_stop hn hneg b]
+    have hE := boundDown_range b (d := -1) (n := n) (by omega)
+    have hSr := boundDown_range a (d := (n : Int) - 1) (n := n) (by omega)
+    generalize PyList.boundDown n a ((n : Int) - 1) = S at hSr ⊢
+    generalize PyList.boundDown n b (-1) = E at hE ⊢
+    by_cases hSE : E < S
+    · simp only [hSE, if_true]
+      exact ⟨by omega, fun h => by omega⟩
+    · simp only [hSE, if_false]
+      exact ⟨by omega, fun h => by omega⟩
+  · have hpos : 0 < st := by omega
+    simp only [hneg, if_false] at h3 h4 ⊢
+    subst h3 h4
+    rw [adjust_up_start hpos a, adjust_up_stop hn hpos b]
+    generalize PyList.boundUp n a 0 = S
+    generalize PyList.boundUp n b n = E
+    exact ⟨by omega, fun h => by omega⟩
 
 end ImathVerif.FixedArray
